@@ -9,6 +9,12 @@ INVARIANT RspViaNinjaRoundTrip
 INVARIANT PairRoundTrip
 INVARIANT AndAndSeparates
 INVARIANT EnvAssignRoundTrip
+INVARIANT EnvStringSplitsAtFirstEqOnly
+INVARIANT EnvSpellingsAgree
+INVARIANT EnvValueExact
+INVARIANT EnvJoin
+INVARIANT EnvAlgebra
+INVARIANT EnvStringThroughEnvWord
 INVARIANT NoTextDenotesNewline
 INVARIANT ShellCarriesNewline
 INVARIANT NoSilentMeta
